@@ -939,6 +939,12 @@ bool Interpret::declareFun(ASTNode const & n) // (const char* fname, const vec<S
     for (int i = 1; i < args.size(); i++)
         args2.push(args[i]);
 
+    if (args2.size() > 0 and not logic->hasUFs()) {
+        // Without a solver for uninterpreted functions their applications would be treated as unrelated variables
+        notify_formatted(true, "The logic %s does not allow uninterpreted functions: %s", logic->getName().c_str(), fname);
+        return false;
+    }
+
     SymRef rval = logic->declareFun(fname, rsort, args2);
 
     if (rval == SymRef_Undef) {
